@@ -1,11 +1,11 @@
 SPECIFICATION Spec
 CONSTANTS
   Vars = {x, y}
-  MaxG = 2
-  Strong = TRUE
-  Ops = {"compose", "merge"}
+  MaxG = 1
+  Strong = FALSE
+  Ops = {"quotient"}
 SYMMETRY Sym
-INVARIANT Keeps
+INVARIANT SoundQ
 INVARIANT WF
 INVARIANT ExcOK
 CHECK_DEADLOCK FALSE
